@@ -116,9 +116,18 @@ pub fn run(rec: &mut Recorder, w: &mut crate::interp::World, tier: &str, seed: u
         for _ in 0..n_rand {
             let n = maxn + 1 + rng.below(48 - maxn);
             let p_ind = 60 + rng.below(40);
-            let seq: Vec<u8> = (0..n).map(|_| if rng.below(100) < p_ind { 1 } else if rng.chance(1, 2) { 0 } else { 2 }).collect();
+            // every third stream is instead a long run of one decisive effect (many matching rules of one kind), the other
+            // two effects rare, so that a dozen and more allows (or denies) in a row occur without the opposite effect
+            let dom = rng.below(3);
+            let seq: Vec<u8> = if dom == 0 {
+                (0..n).map(|_| if rng.below(100) < p_ind { 1 } else if rng.chance(1, 2) { 0 } else { 2 }).collect()
+            } else {
+                let main = if dom == 1 { 0u8 } else { 2u8 };
+                let p_other = rng.below(8);
+                (0..n).map(|_| if rng.below(100) < p_other { rng.below(3) as u8 } else { main }).collect()
+            };
             check_seq(rec, w, xi, &seq, false);
-            rec.count("random-long-stream");
+            rec.count(if dom == 0 { "random-long-stream" } else { "random-long-run-of-one-effect" });
         }
     }
     // malformed stream: unsupported expressions and cap = 0 must panic on both sides
